@@ -602,3 +602,89 @@ Proof.
     + unfold ws. apply Forall_forall. intros w Hw. apply in_map_iff in Hw. destruct Hw as (pi & <- & Hpi).
       apply filter_In in Hpi. destruct Hpi as [Hpi _]. rewrite Forall_forall in Hsm. exact (Hsm pi Hpi).
 Qed.
+
+(* ------------------------------------------------------------------------------------------ *)
+(* posw for arbitrary non-empty writes (not only single-slot ones)                              *)
+
+(* either already met by some write, or met by the write [a,b) being applied, children likewise *)
+Fixpoint prew (a b : Z) (lvl : nat) (n : snode) {struct lvl} : Prop :=
+  posw lvl n \/
+  (is_outside (relationship (sn_time n) (sn_time n + pow10 lvl) a b) = false /\
+   match lvl with O => True | S l => oall (prew a b l) (sn_ch n) end).
+
+Lemma prew_posw a b lvl n : posw lvl n -> prew a b lvl n.
+Proof. destruct lvl; left; assumption. Qed.
+
+Lemma prew_fresh a b lvl n : fresh_met a b lvl n -> prew a b lvl n.
+Proof.
+  intros [E Ho]. destruct lvl as [|l]; right; (split; [exact Ho|]); [exact I|].
+  rewrite E. cbn [new_node sn_ch]. apply oall_repeat_None.
+Qed.
+
+Lemma put_node_prew a b smp : forall lvl n, prew a b lvl n -> posw lvl (fst (s_put_node lvl a b smp n)).
+Proof.
+  induction lvl as [|l IH]; intros [t p s w ch] HQ.
+  - rewrite put_node_unfold_0. cbv zeta. destruct (is_outside _) eqn:E; cbn [fst].
+    + destruct HQ as [H|[H _]]; [exact H|]. cbn [sn_time] in H. congruence.
+    + cbn [posw]. split; [lia|exact I].
+  - rewrite put_node_unfold_S. cbv zeta. destruct (is_outside _) eqn:E; cbn [fst].
+    + cbn [prew] in HQ. destruct HQ as [H|[H _]]; [exact H|]. cbn [sn_time] in H. congruence.
+    + cbn [posw]. split; [lia|].
+      assert (Hch : forall c, In (Some c) ch -> prew a b l c).
+      { intros c Hc. cbn [prew] in HQ. destruct HQ as [[_ H]|[_ H]]; cbn [sn_ch] in *.
+        - apply prew_posw. exact (oall_In _ _ _ H Hc).
+        - exact (oall_In _ _ _ H Hc). }
+      apply oall_put_children_in. intros c Hc. apply IH.
+      destruct (creates _); [|apply Hch, Hc].
+      destruct (fill_children_cases _ _ _ _ _ _ _ Hc) as [H|H]; [apply Hch, H|apply prew_fresh, H].
+Qed.
+
+(* growing the tree above a node that the write meets *)
+Lemma grow_loop_prew a b a' b' : a < b -> a' <= a -> b <= b' -> forall fuel lvl n, prew a b lvl n ->
+  sn_time n < b -> a < sn_time n + pow10 lvl -> wf lvl n ->
+  prew a b (fst (s_grow_loop fuel a' b' lvl n)) (snd (s_grow_loop fuel a' b' lvl n)).
+Proof.
+  intros Hab Ha Hb. induction fuel as [|f IH]; intros lvl n H Hlt Hgt Hwf; cbn [s_grow_loop].
+  - destruct (relationship _ _ a' b'); exact H.
+  - pose proof (wf_time_mod _ _ Hwf) as Hm. pose proof (replace_idx_grid lvl (sn_time n) Hm) as Hidx. cbv zeta in Hidx.
+    destruct (relationship _ _ a' b'); try exact H;
+      (destruct (sn_replace lvl _ n) as [root1|] eqn:E; [|exact H];
+       unfold sn_replace in E; set (T := trunc_to (S lvl) (sn_time n)) in *; set (i := replace_idx lvl T (sn_time n)) in *;
+       destruct Hidx as [Hi Ht]; replace (i <? 0) with false in E by lia;
+       destruct (list_set (Z.to_nat i) (Some n) (repeat None 10)) as [ch'|] eqn:El; [|discriminate]; injection E as <-;
+       pose proof (pow10_pos lvl) as Hp; pose proof (pow10_S lvl) as HS;
+       apply IH;
+       [ right; cbn [sn_time sn_ch]; split;
+         [ pose proof (rel_spec T (T + pow10 (S lvl)) a b ltac:(lia) Hab) as Hr;
+           destruct (relationship T (T + pow10 (S lvl)) a b); cbn [is_outside]; try reflexivity; nia
+         | eapply list_set_oall; [exact H|exact El] ]
+       | cbn [sn_time]; nia | cbn [sn_time]; nia
+       | cbn [wf]; split; [apply trunc_to_mod|]; split;
+         [rewrite (list_set_length _ _ _ _ El); apply repeat_length
+         |eapply list_set_repeat_slots; [exact Hwf|exact El|]; rewrite Z2Nat.id by lia; exact Ht] ]).
+Qed.
+
+Lemma s_put_posw_gen a b smp s : a < b -> root_posw s -> root_posw (fst (s_put a b smp s)).
+Proof.
+  intros Hab H. unfold s_put, root_posw in *.
+  assert (G : match s_root (s_grow a b s) with Some (lvl, n) => prew a b lvl n | None => True end).
+  { unfold s_grow. destruct (s_root s) as [[lvl n]|]; cbn [s_root].
+    - pose proof (grow_loop_posw (Z.min a (sn_time n)) (Z.max b (sn_time n + pow10 lvl)) (max_level - lvl) lvl n H) as G.
+      destruct (s_grow_loop _ _ _ lvl n). apply prew_posw. exact G.
+    - assert (Hf : fresh_met a b 0 (new_node a 0)).
+      { split; [reflexivity|]. cbn [new_node sn_time]. rewrite pow10_0.
+        pose proof (rel_spec a (a + 1) a b ltac:(lia) Hab) as Hr. destruct (relationship a (a + 1) a b); cbn [is_outside]; try reflexivity; lia. }
+      pose proof (grow_loop_prew a b a b Hab ltac:(lia) ltac:(lia) max_level 0 (new_node a 0) (prew_fresh _ _ _ _ Hf)) as G.
+      cbn [new_node sn_time] in G. rewrite pow10_0 in G.
+      specialize (G ltac:(lia) ltac:(lia) (wf_new_node 0 a ltac:(rewrite pow10_0; apply Z.mod_1_r))).
+      destruct (s_grow_loop max_level a b 0 (new_node a 0)). exact G. }
+  destruct (s_root (s_grow a b s)) as [[lvl n]|] eqn:E; [|cbn [fst]; rewrite E; exact I].
+  pose proof (put_node_prew a b smp lvl n G) as P. destruct (s_put_node lvl a b smp n). exact P.
+Qed.
+
+Lemma run_posw_gen ws : Forall (fun w => w_a w < w_b w) ws -> root_posw (fst (run_writes ws)).
+Proof.
+  intros Hs. induction ws as [|w ws IH] using rev_ind; [exact I|].
+  apply Forall_app in Hs. destruct Hs as [H1 H2]. inversion H2 as [|? ? Hw _]; subst.
+  rewrite run_writes_snoc, put_step_eq. cbn [fst]. apply s_put_posw_gen; [exact Hw|apply IH, H1].
+Qed.
